@@ -404,4 +404,32 @@ PROPS = {
             rapid("c08", "TestPropViews", quick=(700, 8), thorough=(20000, 16), steps=40),
         ],
     },
+    "C09": {
+        "level": "exploration",
+        "rule": "rapid histories (up to 40 steps) of raw commands issued one at a time by 1-3 sessions against a real imapserver + imapmemserver, "
+                "compared command by command with a reference mailbox model: CREATE (also with trailing delimiter, INBOX in any case), DELETE, "
+                "RENAME, SUBSCRIBE/UNSUBSCRIBE, LIST/LSUB/LIST (SUBSCRIBED)/RETURN (SUBSCRIBED) with 14 wildcard patterns and references, STATUS "
+                "(MESSAGES UIDNEXT UIDVALIDITY UNSEEN DELETED SIZE), APPEND of 8 constructed MIME templates (plain, many headers, multipart/mixed, "
+                "embedded message/rfc822, nested multipart, minimal, 8-bit without Date, multipart without parts) x 48 text variants with flags "
+                "in mixed case and explicit dates in 5 time zones, SELECT, UNSELECT/CLOSE, STORE/UID STORE (+ - set, .SILENT), COPY/MOVE (+UID), "
+                "EXPUNGE/UID EXPUNGE, SEARCH/UID SEARCH (1-3 top-level keys from all flag keys, KEYWORD, sequence and UID sets with '*', "
+                "LARGER/SMALLER, BEFORE/ON/SINCE, SENT*, SUBJECT/FROM/TO/CC, HEADER, BODY/TEXT, NEW/OLD/RECENT, NOT/OR/parenthesised lists nested "
+                "3 deep; plain and RETURN (ALL|MIN MAX COUNT|COUNT ALL|)), FETCH/UID FETCH (FLAGS, RFC822.SIZE, INTERNALDATE, ENVELOPE/BODY/"
+                "BODYSTRUCTURE for survival, BODY[]/BODY.PEEK[] with part paths up to 3 deep, HEADER/TEXT/MIME/HEADER.FIELDS(.NOT) and partials "
+                "with offsets and sizes in {0,1,...,2^31,2^62,2^63-1}). Model predictions: tagged result, APPENDUID/COPYUID contents, UIDs strictly "
+                "increasing and never reused, UIDVALIDITY constant per incarnation and different after delete+recreate, STATUS numbers, SEARCH "
+                "result sets and MIN/MAX/COUNT, FETCH values (section bytes known by construction of the templates, partial clamp), which messages "
+                "STORE changed (response data + final audit), which messages EXPUNGE/MOVE removed (replay of the EXPUNGE stream on the view), LIST "
+                "name sets and \\Subscribed; after every fully polling command the announced count/UIDs equal the model; a final audit through "
+                "a fresh connection fetches UID/FLAGS/SIZE/INTERNALDATE/BODY[] of every message of every mailbox. Any lost connection, BAD answer "
+                "or 'panic' in the server log fails the case. Non-trivial: a history with a query (SEARCH/FETCH/STATUS/LIST) after >= 3 mutations.",
+        "assumptions": ["sequence-number forms and SEARCH are issued with the session's view in sync (a NOOP is inserted first); UID FETCH/STORE/COPY/MOVE/EXPUNGE also run stale, where only announced messages are expected in responses",
+                        "not generated: DELETE/RENAME of INBOX or of a selected mailbox, RENAME of a mailbox with children, COPY/MOVE onto the selected mailbox, HEADER/TEXT of a part that is not a message, the same FETCH item twice",
+                        "SENTBEFORE/SENTON/SENTSINCE are not judged when the mailbox holds a message without Date header (not defined by the RFC); origins above 2^32-1 and ENVELOPE/BODYSTRUCTURE are survival-only",
+                        "INTERNALDATE of messages appended without date is only required to lie in the run's wall-clock window"],
+        "units": [
+            plain("c09", "TestKnownSmallerZero"),
+            rapid("c09", "TestPropModel", quick=(600, 8), thorough=(15000, 16), steps=40),
+        ],
+    },
 }
